@@ -103,7 +103,8 @@ func uniform(n int, sep string) []string {
 var sepAlphabet = []string{" ", "  ", "\t", "\n", "\r\n", "\n\n  ", " // c\n", " //\n", " // é à 語\n", " //x\r\n", "\t\t \r\n\t", "// …\n", " // \"q\" <L> .\n"}
 
 var commentAlphabet = func() []string {
-	c := []string{"//", "// c", "//c", "// é à 語", "// …", "// \"quoted\" <L> . S1F1", "// trailing blanks  ", "// tab\t", "////", "// à", "// ", "//  x", "//\r"}
+	c := []string{"//", "// c", "//c", "// é à 語", "// …", "// \"quoted\" <L> . S1F1", "// trailing blanks  ", "// tab\t", "////", "// à", "// ", "//  x", "//\r",
+		"// a\rb", "// was:\r  <A \"old\">", "// 10%\r 50%\r", "// \r\r.", "// x\r S1F1 W ."}
 	for b := 0; b < 256; b++ {
 		if b != '\n' {
 			c = append(c, "// x"+string([]byte{byte(b)}))
@@ -254,7 +255,7 @@ func c08Bases(tier string) [][]tok {
 func init() {
 	h.Register(&h.Check{
 		ID:   "C08",
-		Rule: "bases = printed messages covering every token kind plus every single-token deletion/duplication of them (invalid sequences); for each base: every gap x every separator of a 13-separator alphabet (bound 1), uniform layouts, (thorough) every pair of gaps, a comment from a 268-text alphabet (all 255 final bytes) appended to every line, keyword/number-prefix case variants (all-lower, all-upper, each token alone); oracle: identical messages, identical diagnostic texts, diagnostic positions equal to the new line/column of the same token; non-trivial = transformed text parsed and compared with the baseline",
+		Rule: "bases = printed messages covering every token kind plus every single-token deletion/duplication of them (invalid sequences); for each base: every gap x every separator of a 13-separator alphabet (bound 1), uniform layouts, (thorough) every pair of gaps, a comment from a 273-text alphabet (all 255 final bytes, bare CR inside) appended to every line, blanks/tabs/line breaks inside size declarations, keyword/number-prefix case variants (all-lower, all-upper, each token alone); oracle: identical messages, identical diagnostic texts, diagnostic positions equal to the new line/column of the same token; non-trivial = transformed text parsed and compared with the baseline",
 		Build: func(tier string, seed int64) []h.Space {
 			bases := c08Bases(tier)
 			var sp []h.Space
@@ -325,7 +326,7 @@ func init() {
 					}
 					// comments appended to every line (one token per line)
 					for ci, cm := range commentAlphabet {
-						if tier != "thorough" && ci >= 13 && (int(i)+ci)%4 != 0 {
+						if tier != "thorough" && ci >= 18 && (int(i)+ci)%4 != 0 {
 							continue // quick: every base sees a quarter of the 255 final bytes (rotating), thorough all
 						}
 						seps := uniform(n, " "+cm+"\n")
@@ -334,6 +335,44 @@ func init() {
 							seps[n] += "\n"
 						}
 						run("comment", toks, seps, false)
+					}
+					// whitespace inside a size declaration "[a..b]" (the lexer skips blanks, tabs and line breaks there)
+					for j, t := range toks {
+						if !strings.HasPrefix(t.s, "[") || !strings.HasSuffix(t.s, "]") || len(t.s) < 3 || strings.Trim(t.s, "[].0123456789") != "" {
+							continue
+						}
+						// only a size that the lexer meets in text state right after "< TYPE" (in a damaged
+						// sequence the same characters may be part of a message name)
+						if j < 2 || toks[j-2].s != "<" || toks[j-1].kind != 'k' || (j >= 3 && toks[j-3].s == "<") {
+							continue
+						}
+						inner := t.s[1 : len(t.s)-1]
+						parts := []string{inner}
+						if k := strings.Index(inner, ".."); k >= 0 {
+							parts = []string{inner[:k], "..", inner[k+2:]}
+						}
+						for _, ws := range []string{" ", "\t", "\n", "\r\n", "\n\n "} {
+							for gap := 0; gap <= len(parts); gap++ {
+								v := "["
+								for pi, pt := range parts {
+									if pi == gap {
+										v += ws
+									}
+									v += pt
+								}
+								if gap == len(parts) {
+									v += ws
+								}
+								v += "]"
+								tk := append([]tok{}, toks...)
+								tk[j].s = v
+								run("size-inner-whitespace", tk, base, false)
+							}
+							all := "[" + ws + strings.Join(parts, ws) + ws + "]"
+							tk := append([]tok{}, toks...)
+							tk[j].s = all
+							run("size-inner-whitespace", tk, base, false)
+						}
 					}
 					// letter case
 					for _, up := range []bool{false, true} {
